@@ -217,7 +217,7 @@ def translate():
     """Regenerate coq/Gen from /repo.  Returns (ok, log)."""
     logs = []
     ok = True
-    for script in ("py2v.py", "f902v.py"):
+    for script in ("py2v.py", "f902v.py", "f902v_fn.py"):
         path = os.path.join(VERIF, "translate", script)
         if not os.path.exists(path):
             continue
